@@ -60,6 +60,10 @@ CHECKS = {
    text="Assembler.tla models one assembler instance at the granularity of its methods (module provider, procedure cache with ids / aliases / callsets, per-compilation context, a failed compilation keeping what it inserted) next to a declarative layer (name resolution through re-exports, pasted exec bodies, statically reachable call / syscall / procref targets, validity). TLC explores every history of library additions and compilations (failing ones included) up to length 4 over hand-built and random universes of modules, kernels and programs and monitors HistoryIndependence (= result of a freshly configured instance) and conformance to the declarative layer (success iff valid, prescribed root, code-block table containing every static target). Every maximal history is replayed on one real Assembler in two build profiles: outcome as prescribed, never a panic; hash and kernel equal to a freshly configured real instance; equal prescribed root terms <=> one real MAST root; table statically closed; the (straight-line) program executed without a missing procedure body. A table of invalid / boundary sources from the user docs' parameter ranges must be rejected with an error.",
    note="Trusted: TLC; the user docs as formalised. Programs of the universes are straight-line so that execution reaches every static reference. Known finding KF-C11-caller-in-library is reported as KNOWN-FINDING. call.0x<root> (phantom calls) and with_kernel after compilations are not generated (documented as history dependent / forbidden).",
    tech="TLA+ model of the assembler's cache mechanism + declarative semantics, model-checked over all bounded histories; histories replayed on the real assembler", ref="DESIGN.md §4 C11"),
+ "C04": dict(cat="model_checking",
+   text="AirEnforced.tla derives from the operation semantics of MidenVM.tla, in the mini field, which cells of the next row (stack positions, depth b0, overflow address b1, fmp, clk) are a function of the current row alone for every operation in every depth regime (16 / 17 / deeper) - the cells a transition constraint must pin down, minus those the documentation routes through a bus -, checks that the helper-limb relations of the u32 operations have exactly one solution for every operand tuple of the mini field, adds the documented stack effect of the control-flow rows and the chiplet / range-checker relations, and prints the table. For honest traces (every native operation and control-flow row executed directly on inputs at depth 16 / 17 / 18+, a depth sweep of every instruction kind, generated programs of all classes; rows validated against the specification in C03) the harness substitutes wrong values (v+1, v-1, 0, 1, neighbour, p-1, 2^32, random) in every enforced cell of every row - hasher rounds, bitwise rows, memory rows and range-checker steps included - and evaluates the real ProcessorAir transition constraints on the altered pair(s): at least one must be non-zero.",
+   note="Trusted: TLC; winterfell's Air::evaluate_transition as the constraint system. Cells enforced through buses / virtual tables (range checks of helper limbs, chiplet lookups, overflow table, op group table) are C12's subject; CALLER (no documented constraints), the documented exclusion of the memory chiplet's last row and fmp on operations other than FMPUPDATE are not judged.",
+   tech="TLA+ derivation of the enforced-cell table from the operation-level spec (TLC, mini field) + perturbation of spec-validated honest row pairs evaluated on the real AIR", ref="DESIGN.md §4 C04"),
 }
 
 NOT_APPLICABLE = {
